@@ -16,7 +16,7 @@ def main():
     inv = {v: k for k, v in runner.OVERLAY.items()}
     modpath = inv[mod][:-3].replace("/", "::")
     obls = [{"id": h, "engine": "kani", "module": mod, "harness": f"{modpath}::verif_kani::{h}", "cbmc_args": cbmc, "timeout_s": timeout, **({"unwindset": {k: int(v) for k, v in us.items()}} if us else {})} for h in a]
-    key = runner.tree_key()
+    key = runner.repo_key()
     sc = runner.Scratch(key, [mod])
     sc.prepare()
     import threading
